@@ -302,6 +302,11 @@ def length(a):
         return ('nrows', a[1])
     if tag == 'shaped' and a[2]:
         return ('const', a[2][0]) if isinstance(a[2][0], int) else a[2][0]
+    if tag == 'call' and a[1] in ('swapaxes', 'reshape', 'flatten') or tag == 'idx':
+        from .calls import dims_of
+        d = dims_of(a)
+        if d:
+            return d[0]
     if tag == 'atom' and a[1] in ATOM_LEN:
         return ATOM_LEN[a[1]]
     if tag == 'keys' and len(a) > 1 and isinstance(a[1], tuple):
